@@ -59,6 +59,35 @@ static size_t build(uint8_t* buf) {
   return 0;
 }
 
+// ordered structural equality (members in textual order, duplicates kept, number kind and 8 payload bytes)
+template <class A, class B>
+static bool same(const A& a, const B& b) {
+  if (a.GetType() != b.GetType() && !(a.IsString() && b.IsString())) return false;
+  if (a.IsObject()) {
+    if (a.Size() != b.Size()) return false;
+    auto ib = b.MemberBegin();
+    for (auto ia = a.MemberBegin(); ia != a.MemberEnd(); ++ia, ++ib) {
+      StringView x = ia->name.GetStringView(), y = ib->name.GetStringView();
+      if (x.size() != y.size() || memcmp(x.data(), y.data(), x.size()) != 0) return false;
+      if (!same(ia->value, ib->value)) return false;
+    }
+    return true;
+  }
+  if (a.IsArray()) {
+    if (a.Size() != b.Size()) return false;
+    auto ib = b.Begin();
+    for (auto ia = a.Begin(); ia != a.End(); ++ia, ++ib) if (!same(*ia, *ib)) return false;
+    return true;
+  }
+  if (a.IsString()) { StringView x = a.GetStringView(), y = b.GetStringView(); return x.size() == y.size() && memcmp(x.data(), y.data(), x.size()) == 0; }
+  if (a.IsNumber()) {
+    if (a.IsDouble()) { double d = a.GetDouble(), e = b.GetDouble(); return memcmp(&d, &e, 8) == 0; }
+    if (a.IsUint64()) return a.GetUint64() == b.GetUint64();
+    return a.GetInt64() == b.GetInt64();
+  }
+  return true;
+}
+
 extern "C" int h_ondemand(void) {
   long mode = verif_param(0);
   static uint8_t scratch[512];
@@ -67,8 +96,15 @@ extern "C" int h_ondemand(void) {
   memcpy(in, scratch, n);
   if (mode & 2) verif_assume(ref::recognise(in, n) == ref::R_OK);
   int rc = 0;
-  {
-    JsonPointerView path; make_path(verif_param(1), path);
+  long plo = verif_param(1), phi = plo;
+  if (plo < 0) { plo = 0; phi = 11; }            // param1 = -1: all twelve paths, one after the other, on the same text
+  Doc full;
+  if (mode & 2) {
+    full.Parse((const char*)in, n);
+    if (full.HasParseError()) verif_fail("C10: reference-valid text rejected by the full parser");
+  }
+  for (long pi = plo; pi <= phi; pi++) {
+    JsonPointerView path; make_path(pi, path);
     StringView target("zz", 2);
     sonic_json::ParseResult res = sonic_json::GetOnDemand(StringView((const char*)in, n), path, target);
     if (res.Error() == sonic_json::kErrorNone) {
@@ -80,8 +116,6 @@ extern "C" int h_ondemand(void) {
       if (target.size() != 0) verif_fail("C10: error returned but the slice is not empty");
     }
     if (mode & 2) {
-      Doc full; full.Parse((const char*)in, n);
-      if (full.HasParseError()) verif_fail("C10: reference-valid text rejected by the full parser");
       const Doc::NodeType* node = full.AtPointer(path);
       if ((node != nullptr) != (res.Error() == sonic_json::kErrorNone))
         verif_fail(node ? "C10: path resolves in the document but on-demand lookup fails" : "C10: on-demand lookup succeeds although the path does not resolve");
@@ -90,8 +124,8 @@ extern "C" int h_ondemand(void) {
       if (node) {
         Doc sl; sl.Parse(target.data(), target.size());
         if (sl.HasParseError()) verif_fail("C10: returned slice does not parse");
-        if (!(sl == *node)) verif_fail("C10: slice parses to a value different from the one the document holds");
-        if (!(od == *node)) verif_fail("C10: ParseOnDemand value differs from the one the document holds");
+        if (!same(sl, *node)) verif_fail("C10: slice parses to a value different from the one the document holds");
+        if (!same(od, *node)) verif_fail("C10: ParseOnDemand value differs from the one the document holds");
       }
     }
   }
